@@ -1,0 +1,7 @@
+//go:build !verif
+
+package soyhtml
+
+// verifUnbound is an observation point of the /verif machinery; without the
+// build tag verif it is an empty function that the compiler inlines away.
+func verifUnbound(k string) {}
